@@ -143,17 +143,19 @@ Proof.
   apply node_rep_file in Hr0. destruct Hr0 as (_ & _ & Hech).
   (* the FAT part: the entries of the chain of the file *)
   assert (Ftr : exists F, fr v fsz F [] (s_disk sg) (s_disk s2) /\
-            (forall x, In x F -> 2 <= e_cluster e /\ In x (chain_l (s_disk sg) v (e_cluster e)))).
+            (forall x, In x F -> 2 <= e_cluster e /\ In x (chain_l (s_disk sg) v (e_cluster e))) /\
+            val_ok v fsz (s_disk sg) (s_disk s2)).
   { destruct Hech as [(A1 & fu & A2)|(A1 & ->)].
     - destruct (chain_of_head _ _ _ _ _ A2) as (_ & C2 & rest & Ech). rewrite Ech in A2.
       pose proof (fi_vol _ _ _ _ _ _ _ _ Hatg) as (_ & (Hst & _) & _).
       destruct (PrChain.truncate_cluster_chain_effect 0%nat v fsz sg (e_cluster e) rest fu L Hst A2) as (s2' & Hrun' & Heff).
       rewrite Htr in Hrun'. injection Hrun' as <-.
-      exists (e_cluster e :: rest). split; [exact (fr_trunc _ _ _ _ _ _ _ Heff)|].
-      intros x Hx. split; [exact A1|]. rewrite (chain_l_at _ _ _ _ (chain_at_any _ _ _ _ _ A2)). exact Hx.
+      exists (e_cluster e :: rest). split; [exact (fr_trunc _ _ _ _ _ _ _ Heff)|]. split.
+      + intros x Hx. split; [exact A1|]. rewrite (chain_l_at _ _ _ _ (chain_at_any _ _ _ _ _ A2)). exact Hx.
+      + exact (val_trunc 0%nat v v fsz sg _ rest s2 _ (geo_eq_refl v) (val_refl v fsz _) Heff).
     - rewrite (PrChain.truncate_reserved 0%nat _ sg A1) in Htr. injection Htr as <-.
-      exists []. split; [apply fr_refl|intros x []]. }
-  destruct Ftr as (F & Ftr & HF). rewrite Hdg in Ftr, HF.
+      exists []. split; [apply fr_refl|]. split; [intros x []|apply val_refl]. }
+  destruct Ftr as (F & Ftr & HF & Vtr). rewrite Hdg in Ftr, HF, Vtr.
   assert (Hdir : PrBounds.in_dir v (e_block e)).
   { apply (gw_dir_block_in_dir _ _ _ _ _ _ _ _ Hat).
     apply (ctx_block_in_tree _ _ _ _ _ _ _ _ _ Hctx0).
@@ -162,6 +164,8 @@ Proof.
   exists (s_next_id s1). eexists. exists tg, bytes. split; [exact Hopen|]. split; [|split; [|exact Hlenb]].
   2:{ unfold tg. intros x Hx. destruct (2 <=? e_cluster e); [|destruct Hx]. destruct Hx as [<-|[]]. reflexivity. }
   cbn [s_disk set_s_files].
+  split.
+  { apply (val_same v fsz _ (s_disk s2) _ [e_block e]); [exact Vtr|]. rewrite Hd4. apply fr_set. exact Hoffe. }
   exists (F ++ []), ([] ++ [e_block e]). split.
   { apply (fr_trans v fsz _ _ _ _ _ _ _ Ftr). rewrite Hd4. apply fr_set. exact Hoffe. }
   split.
@@ -200,8 +204,9 @@ Proof.
     - exact (chain_blocks_off_fat fsz _ v _ _ _ L Hch0 Hb). }
   assert (Hdir : PrBounds.in_dir v blk).
   { apply (gw_dir_block_in_dir _ _ _ _ _ _ _ _ Hat). exact (ctx_block_in_tree _ _ _ _ _ _ _ _ _ Hctx Hb). }
-  exists [], [blk]. split.
-  { rewrite Ed, Hd2, Hd. apply fr_set. exact Hoffb. }
+  assert (Fs : fr v fsz [] [blk] (s_disk s) (s_disk s')) by (rewrite Ed, Hd2, Hd; apply fr_set; exact Hoffb).
+  split; [exact (val_same v fsz _ _ _ _ (val_refl v fsz _) Fs)|].
+  exists [], [blk]. split; [exact Fs|].
   split; [intros x []|]. split; [intros x []|]. split; [intros c []|]. split.
   { intros j [<-|[]]. right. right. left. eexists. eexists. reflexivity. }
   intros j off0 b E. injection E as <- <- <-. split; [exact Hdir|]. split.
@@ -268,8 +273,13 @@ Proof.
       symmetry. apply N.eqb_neq. exact (in_range_not_root v _ Hvok R2). }
   assert (Elen : length (ser_bytes (v_fat32 v) en) = 32%nat).
   { apply ser_bytes_length. rewrite Een. cbn [e_name]. exact (proj1 (sfn_of_str_wf _ _ Hsfn)). }
+  assert (Fb : fr v fsz [] [B] (s_disk sa) (s_disk s')) by (rewrite Ed, Hd2; apply fr_set; exact HoffB).
+  split.
+  { apply (val_same v fsz _ (s_disk sa) _ [B]); [|exact Fb].
+    apply (val_alloc 0%nat v v fsz (Some p) true s0 cn sa (s_disk s) (geo_eq_refl v)); [rewrite Ed0; apply val_refl|exact Heff|exact Hfree|].
+    intros E. injection E as E. apply P3. rewrite E. exact C3. }
   exists ([cn; p] ++ []), (cluster_blocks v cn ++ [B]). split.
-  { rewrite Ed. rewrite Ed0 in Fa. apply (fr_trans v fsz _ _ _ _ _ _ _ Fa). rewrite Hd2. apply fr_set. exact HoffB. }
+  { rewrite Ed0 in Fa. exact (fr_trans v fsz _ _ _ _ _ _ _ Fa Fb). }
   split; [intros x [<-|[]]; exact Hc0|]. split; [intros x []|]. split.
   { intros c [<-|[<-|[]]]; [right; exact Hfree|left].
     cbn [flat_map]. rewrite app_nil_r, <- Ed0, (chain_l_at _ _ _ _ Hch). exact Hlast. }
@@ -343,7 +353,8 @@ Proof.
         assert (Hde : dir_entry s v h name (t_entry (v_fat32 v) t)).
         { exists dd, sfn, bl', t. repeat (split; [first [assumption|exact (dx_blocks _ _ _ _ _ _ _ _ Hctx)]|]). reflexivity. }
         eexists tg, [], _. split; [exact Hcf|]. cbn [op_owns]. split; [reflexivity|]. split.
-        -- intros x Hx. left. exists (t_entry (v_fat32 v) t). split; [exact Hde|]. symmetry. exact (Htg x Hx).
+        -- intros x Hx. left. split; [destruct Hmd as [-> | ->]; reflexivity|].
+           exists (t_entry (v_fat32 v) t). split; [exact Hde|]. symmetry. exact (Htg x Hx).
         -- intros j off b0 E0. injection E0 as <- <- <-. split; [exact Hlb|]. left.
            exists (t_entry (v_fat32 v) t). split; [exact Hde|split; reflexivity].
   - destruct (creating md) eqn:Hcr.
